@@ -447,7 +447,17 @@ pub fn run(run: &mut Run) {
     run.sub("parser-mutated", n_mut, |l, idx, rng| {
         let m = gen_matrix(rng, idx % 4); // small ones
         let h = m.to_sparse();
-        let base = if rng.coin() { h.alist() } else { h.alist_no_padding() };
+        let padded = rng.coin();
+        let base = match guard(|| if padded { h.alist() } else { h.alist_no_padding() }) {
+            Ok(t) => t,
+            Err(p) => {
+                l.violation(
+                    format!("{} panicked on a {} matrix: {}", if padded { "alist()" } else { "alist_no_padding()" }, m.family, panic_class(&p)),
+                    m.json().set("panic", p),
+                );
+                return;
+            }
+        };
         let (text, kind) = mutate(rng, &base);
         l.count(kind);
         check_parser_total(l, &text, kind);
